@@ -651,8 +651,12 @@ namespace bloch::runtime {
         if (m_currentClassCtx) {
             if (!m_inStaticContext && thisObj) {
                 RuntimeField* field = findInstanceField(m_currentClassCtx, name);
-                if (field && field->offset < thisObj->fields.size())
-                    return thisObj->fields[field->offset];
+                if (field && field->offset < thisObj->fields.size()) {
+                    Value fv = thisObj->fields[field->offset];
+                    if (fv.type == Value::Type::Qubit || fv.type == Value::Type::QubitArray)
+                        fv.objectValue = thisObj;  // see MemberAccessExpression
+                    return fv;
+                }
             }
             auto [field, owner] = findStaticFieldWithOwner(m_currentClassCtx, name);
             if (field && owner && field->offset < owner->staticStorage.size())
@@ -2556,8 +2560,15 @@ namespace bloch::runtime {
                     obj.objectValue->cls ? findInstanceField(obj.objectValue->cls, memAcc->member)
                                          : nullptr;
                 if (instField) {
-                    if (instField->offset < obj.objectValue->fields.size())
-                        return obj.objectValue->fields[instField->offset];
+                    if (instField->offset < obj.objectValue->fields.size()) {
+                        Value fv = obj.objectValue->fields[instField->offset];
+                        // The object owns its qubit fields and releases them when it dies. A
+                        // handle read out of it keeps the owner alive while the handle is in use
+                        // (e.g. `f(make().q)`), so the qubit is not recycled under it.
+                        if (fv.type == Value::Type::Qubit || fv.type == Value::Type::QubitArray)
+                            fv.objectValue = obj.objectValue;
+                        return fv;
+                    }
                 } else {
                     auto [staticField, owner] =
                         obj.objectValue->cls
@@ -3164,6 +3175,7 @@ namespace bloch::runtime {
                     Value v;
                     v.type = Value::Type::Qubit;
                     v.qubit = coll.qubitArray[idxi];
+                    v.objectValue = coll.objectValue;  // owner of the register, if any
                     return v;
                 }
                 default:
